@@ -1084,12 +1084,23 @@ func (b *bootstrapContext) getRegistryAndDatabase(ctx context.Context, bucketNam
 				}
 			} else if registryDb.PreviousVersion != nil {
 				// Previous Version without current version represents in-progress delete.  Wait for delete to complete
-				err := b.waitForConfigDelete(ctx, bucketName, groupID, dbName, registryDb.PreviousVersion.Version, registry)
-				if err == base.ErrConfigRegistryReloadRequired {
+				deleteErr := b.waitForConfigDelete(ctx, bucketName, groupID, dbName, registryDb.PreviousVersion.Version, registry)
+				if deleteErr == base.ErrConfigRegistryReloadRequired {
 					// ReloadRegistry is returned by waitForConfigDelete immediately if the config exists but the
 					// version does not match the previous version. Indicates a concurrent author has recreated the
 					// database - continue to reload the registry.
 					continue
+				}
+				// A CAS mismatch while completing the delete means the config or registry was concurrently
+				// modified - reload the registry to pick up the latest state.
+				if base.IsCasMismatch(deleteErr) {
+					continue
+				}
+				// ErrConfigRegistryRollback means waitForConfigDelete completed the delete and removed the database
+				// from the registry, so the database no longer exists.  Any other error means the in-progress delete
+				// could not be confirmed, and must be returned to the caller.
+				if deleteErr != nil && deleteErr != base.ErrConfigRegistryRollback {
+					return registry, nil, deleteErr
 				}
 			}
 
